@@ -31,7 +31,8 @@ RULE = (
     "each declared field has a counting wrapper around a pure, deliberately non-idempotent serializer (wrap, inc, str, "
     "len, keys, attribute of a custom object, identity); values incl. mutable containers and custom objects; undeclared "
     "extra fields; 0-2 global fields; x a fault mask: any subset of declared fields whose serializer raises (exception "
-    "class from a table) or that are omitted, on start, success, in-action and stand-alone messages. Oracle: a delivered "
+    "class from a table incl. asyncio.CancelledError and another BaseException-only class; fresh instances, or one stored "
+    "instance raised again and again) or that are omitted, on start, success, in-action and stand-alone messages. Oracle: a delivered "
     "message has every declared field == f(v) with f called exactly once for that message, other fields untouched, global "
     "fields present, identical at both destinations; caller-held dicts/objects deep-equal before and after; on a fault the "
     "message (identified by a unique token) reaches no destination, exactly one eliot:traceback directly followed by one "
@@ -45,7 +46,7 @@ RULE = (
     "f(f(v)) != f(v), or a fault on a start/end message. Distinct = canonical JSON of the case."
 )
 ASSUMPTIONS = [
-    "serializers are pure and raise only Exception subclasses",
+    "serializers are pure; they raise Exception subclasses or BaseException subclasses used for control flow (asyncio.CancelledError), never KeyboardInterrupt/SystemExit",
     "MemoryLogger legitimately calls serializers more than once (validation); exactly-once is checked on the Logger -> destinations path",
     "the context of a report is identified through the public Action.serialize_task_id() of current_action() just before the call",
 ]
@@ -70,7 +71,13 @@ class OtherFault(ValueError):
     pass
 
 
-FAULTS = [SerFault, OtherFault, KeyError, ZeroDivisionError, StopIteration, IndexError]
+class ControlFlowFault(BaseException):
+    """Not an Exception subclass (like asyncio.CancelledError out of `future.result()`)."""
+
+
+import asyncio  # noqa: E402
+
+FAULTS = [SerFault, OtherFault, KeyError, ZeroDivisionError, StopIteration, IndexError, asyncio.CancelledError, ControlFlowFault]
 
 SERS = {
     "id": (lambda v: v, "any"),
@@ -183,7 +190,16 @@ class Scenario(object):
         def ser(v):
             rec["calls"][key] += 1
             if fault is not None and fault[0] == "raise":
-                raise FAULTS[fault[1] % len(FAULTS)]("serializer of %s fails" % key)
+                cls = FAULTS[fault[1] % len(FAULTS)]
+                if self.case.get("shared_exceptions"):
+                    # a serializer like `lambda f: f.result()` re-raises the very same stored instance every time
+                    store = self.__dict__.setdefault("_shared", {})
+                    if cls not in store:
+                        store[cls] = cls("stored failure")
+                        self.shared_snapshots = getattr(self, "shared_snapshots", [])
+                        self.shared_snapshots.append((store[cls], dict(store[cls].__dict__)))
+                    raise store[cls]
+                raise cls("serializer of %s fails" % key)
             return fn(v)
 
         return ser
@@ -191,7 +207,7 @@ class Scenario(object):
     def call(self, what, fn, *a, **kw):
         try:
             return fn(*a, **kw)
-        except Exception as e:
+        except (Exception, asyncio.CancelledError, ControlFlowFault) as e:
             self.returned_abnormally.append("%s raised %r" % (what, e))
             raise Violation("call-raised", "%s raised %r" % (what, e))
 
@@ -336,6 +352,8 @@ def check(case):
         eliot_errors._error_extraction.registry.clear()
         eliot_errors._error_extraction.registry.update(saved_registry)
     msgs = d1.messages
+    for exc, snap in getattr(sc, "shared_snapshots", []):
+        require(dict(exc.__dict__) == snap, "caller-object-mutated", lambda: "the exception object a serializer raised was modified: %r -> %r" % (snap, exc.__dict__))
     require(
         [canon(_strip(m)) for m in msgs] == [canon(_strip(m)) for m in d2.messages],
         "destinations-differ",
@@ -464,6 +482,8 @@ def classify(case, info):
         labels.append("global-fields")
     if case.get("extractors") and info["faults"]:
         labels.append("extractor-registered-for-serializer-exception")
+    if case.get("shared_exceptions") and info["faults"] >= 2:
+        labels.append("same-exception-instance-raised-again")
     kinds = set()
     _kinds(case["items"], kinds)
     labels.extend(sorted("op:" + k for k in kinds))
@@ -494,7 +514,7 @@ def field_specs():
                     st.none(),
                     st.none(),
                     st.none(),
-                    st.tuples(st.just("raise"), st.integers(0, 5)).map(list),
+                    st.tuples(st.just("raise"), st.integers(0, 7)).map(list),
                     st.just(["omit"]),
                 ),
             ).map(list)
@@ -530,7 +550,8 @@ def items(depth):
 
 def strategy():
     return st.builds(
-        lambda outer, globals_, extractors, its: {"outer": outer, "globals": globals_, "extractors": extractors, "items": its},
+        lambda shared, outer, globals_, extractors, its: {"shared_exceptions": shared, "outer": outer, "globals": globals_, "extractors": extractors, "items": its},
+        st.sampled_from([False, False, True]),
         st.integers(0, 2),
         st.lists(st.integers(0, 5), max_size=2),
         st.one_of(
